@@ -108,6 +108,15 @@ CONTROLS = [
          '            let mut replaced = String::from(replaced.text());\n            if let Some(paren) = paren {\n                replaced.push_str(&paren);\n            }\n            Ok(Some((\n                replaced,\n                text.origin.clone(),', 1)]),
     ('g22-star-run-guarded', 'G22', 'syn', 'block_comment:greedy-run-before-closer', [(PARSER + 'general/comments.rs',
         'terminated(tag("*"), peek(not(tag("/")))),', 'terminated(is_a("*"), peek(not(tag("/")))),', 1)]),
+    ('x1-blanks-joined-to-expansion', 'X1', 'syn', 'Enter(TextMacroUsage):0:text-assembled', [(PPF,
+        '                if let Some((text, origin, new_defines)) = resolve_text_macro_usage(', '                if let Some((mut text, origin, new_defines)) = resolve_text_macro_usage(', 1),
+        (PPF, '                    ret.push(&text, origin);\n                    defines = new_defines;', '                    text.push_str(" ");\n                    ret.push(&text, origin);\n                    defines = new_defines;', 1)]),
+    ('x13-table-only-for-literal-define', 'X13', 'syn', 'expansion-table-replaced', [(PPF,
+        '            Ok(Some((\n                String::from(replaced.text()),\n                text.origin.clone(),\n                new_defines,',
+        '            Ok(Some((\n                String::from(replaced.text()),\n                text.origin.clone(),\n                defines.clone(),', 1)]),
+    ('w5-trim-as-characters', 'W5', 'syn', 'get_str_trim:slice', [(API,
+        '        let mut beg = None;\n        let mut end = 0;\n        let mut skip = false;\n        for n in Iter::new(nodes.into()).event() {',
+        '        return self.get_str(nodes).map(|x| x.trim_end());\n        #[allow(unreachable_code)]\n        let mut beg = None;\n        let mut end = 0;\n        let mut skip = false;\n        while let Some(n) = Iter::new(nodes.into()).event().next() {', 1)]),
     ('x11-include-unguarded', 'X11', 'syn', 'open-unguarded', [(PPF, 'NodeEvent::Enter(RefNode::IncludeCompilerDirective(x)) if !ignore_include => {', 'NodeEvent::Enter(RefNode::IncludeCompilerDirective(x)) => {', 1)]),
     ('x12-search-reversed', 'X12', 'syn', 'search-order', [(PPF, '                    for include_path in include_paths {', '                    for include_path in include_paths.iter().rev() {', 1)]),
     ('p2-utf8-error-without-path', 'P2', 'syn', 'read-error', [(PPF, 'Err(Error::ReadUtf8(PathBuf::from(path.as_ref())))', 'Err(Error::ReadUtf8(PathBuf::new()))', 1)]),
